@@ -164,4 +164,56 @@ theorem forgery_old_value (H : Bytes → Bytes) (hlen : ∀ x, (H x).length = 32
     rw [innerEnc_eq_leafEnc sk _ hs2 (by rw [hlen]; omega)]
     simp [root, a]
 
+/-! ### regression witness: a fold step that fills only an EMPTY side (seeded regression C03b)
+
+`Proof.verifyWith step` is `Proof.verify` with the fold step as a parameter (`verifyWith_eq`).  The variant
+`innerNodeProofHashFill` copies both hashes of the branch record and puts the child hash only into an empty side; a
+record that carries both hashes then ignores the child hash, and the root's own record verifies every pair. -/
+
+def verifyLoopWith (step : Bytes → InnerNode → Bytes) : Bytes → List InnerNode → Option Bytes
+  | h, [] => some h
+  | h, b :: rest => if goodBranch b then verifyLoopWith step (step h b) rest else none
+
+def Proof.verifyWith (step : Bytes → InnerNode → Bytes) (H : Bytes → Bytes) (p : Proof) (key value root : Bytes) : Bool :=
+  if p.rootHash != root then false
+  else
+    let leafHash := H (leafEnc key value)
+    if leafHash != last32 p.leafHash then false
+    else match verifyLoopWith step leafHash p.inners with
+      | none => false
+      | some h => h == p.rootHash
+
+theorem verifyLoopWith_eq (H : Bytes → Bytes) (ins : List InnerNode) :
+    ∀ h, verifyLoopWith (innerNodeProofHash H) h ins = verifyLoop H h ins := by
+  induction ins with
+  | nil => intro h; rfl
+  | cons b rest ih => intro h; simp only [verifyLoopWith, verifyLoop, ih]
+
+theorem verifyWith_eq (H : Bytes → Bytes) (p : Proof) (k v root : Bytes) :
+    p.verifyWith (innerNodeProofHash H) H k v root = p.verify H k v root := by
+  unfold Proof.verifyWith Proof.verify
+  simp only [verifyLoopWith_eq]
+  split
+  · rfl
+  · split
+    · rfl
+    · cases verifyLoop H (H (leafEnc k v)) p.inners <;> rfl
+
+/-- the changed step of the seeded regression. -/
+def innerNodeProofHashFill (H : Bytes → Bytes) (child : Bytes) (b : InnerNode) : Bytes :=
+  if b.leftHash.isEmpty then H (innerEnc child b.rightHash b.height b.size)
+  else if b.rightHash.isEmpty then H (innerEnc b.leftHash child b.height b.size)
+  else H (innerEnc b.leftHash b.rightHash b.height b.size)
+
+theorem fill_root_record_accepts_all (H : Bytes → Bytes) (hlen : ∀ x, (H x).length = 32) (l r : Bytes) (ht sz : Int)
+    (hl : l ≠ []) (hr : r ≠ []) (hht : 1 ≤ ht) (hsz : 2 ≤ sz) (k v : Bytes) :
+    let root := H (innerEnc l r ht sz)
+    (⟨H (leafEnc k v), [⟨l, r, ht, sz⟩], root⟩ : Proof).verifyWith (innerNodeProofHashFill H) H k v root = true := by
+  intro root
+  have e1 : l.isEmpty = false := by cases l <;> simp_all
+  have e2 : r.isEmpty = false := by cases r <;> simp_all
+  have hg : goodBranch ⟨l, r, ht, sz⟩ = true := by
+    simp only [goodBranch, Bool.not_eq_true', Bool.or_eq_false_iff, decide_eq_false_iff_not]; omega
+  simp [Proof.verifyWith, verifyLoopWith, hg, innerNodeProofHashFill, e1, e2, last32_of_length (hlen _), root]
+
 end C03
